@@ -407,7 +407,7 @@ theorem PM.sumCost_extendOpt (p : PM M N) (c : M → Option N → K) (u : M → 
     intro i; unfold PM.rowCost PM.extendOpt; cases hf : p.f i <;> simp [hf]
   have h2 : p.extendOpt.colCost v none = 0 := by simp [PM.colCost, PM.extendOpt, hv0]
   have h3 : ∀ j, p.extendOpt.colCost v (some j) = p.colCost (fun j => v (some j)) j := by
-    intro j; unfold PM.colCost PM.extendOpt; cases hg : p.g j <;> simp [hg]
+    intro j; unfold PM.colCost PM.extendOpt; cases hg : p.g j <;> simp
   simp only [h1, h2, h3, zero_add]
 
 theorem PM.sumCost_restrictOpt_le (p : PM M (Option N)) (c : M → Option N → K) (u : M → K)
